@@ -91,11 +91,19 @@ def uninstall():
 
 ERR_PREFIX = [("EBB Serial Timeout", 1), ("\nUnexpected response from EBB.", 2), ("USB communication error", 3), ("Error reported by EBB.", 4),
               ("Unable to locate", 5), ("Failed to connect via USB", 6), ("Firmware version", 7), ("Error testing USB connection", 8)]
+ERR_WORDS = [("timeout", 1), ("unexpected", 2), ("usb communication", 3), ("communication error", 3), ("error reported", 4), ("unable to locate", 5),
+             ("failed to connect", 6), ("firmware version", 7), ("error testing", 8)]
 def err_kind(msg):
+    """the kind of a recorded message: by its documented beginning, else by a characteristic word, else 99 = "some error" (a reworded
+    message is not a reason for an alarm: the properties speak of an error being recorded and kept, not of its wording)"""
     if msg is None:
         return None
     for p, k in ERR_PREFIX:
         if msg.startswith(p):
+            return k
+    low = str(msg).lower()
+    for w, k in ERR_WORDS:
+        if w in low:
             return k
     return 99
 
@@ -201,7 +209,7 @@ def run_history(calls, events, close_raises=False):
     obj.record_error = spy
     try:
         for call in calls:
-            before_w = len(fp.writes); before_c = script.consumed; before_r = len(recorded); before_l = len(fp.lines_read)
+            before_w = len(fp.writes); before_c = script.consumed; before_r = len(recorded); before_l = len(fp.lines_read); before_err = obj.err
             raised, ret = None, None
             fp.wide_faults = call[0] not in ("connect", "reboot", "bootload", "disconnect")
             try:
@@ -212,6 +220,8 @@ def run_history(calls, events, close_raises=False):
             for d in fp.writes[before_w:]:
                 t = d.decode("latin-1")
                 writes.append(t[:-1] if t.endswith("\r") else t + "<noCR>")
+            if raised is None and before_err is not None and obj.err != before_err:
+                raised = "RecordedErrorReplaced"        # the message recorded first is gone or has been replaced by a later one
             if raised is None and len(recorded) > before_r and obj.err is None:
                 raised = "RecordedErrorErased"          # an error was recorded during this call and is gone at its end
             if raised is None and call[0] != "connect" and len(recorded) > before_r and len(fp.writes) > marks[before_r]:
